@@ -98,7 +98,11 @@ def _expired_only(snap, final, now):
     return True
 
 
+_DETAIL = {}    # (op index, signature, text) -> (browser, type, lower-cased instance) of the last `oracle` run, for the three signatures S1/S6 refine
+
+
 def oracle(probes, ops, obs, res):
+    _DETAIL.clear()
     found = []
     live = {}      # (bid, type, lower name) -> bool
     active = {}    # bid -> types
@@ -151,9 +155,11 @@ def oracle(probes, ops, obs, res):
                 live[key] = True
                 if not seen:
                     found.append((idx, "C04:added-before-cached", "inside add_service(%s, %s) the cache lookup does not find the pointer record" % (type_, name)))
+                    _DETAIL[(idx, "C04:added-before-cached", found[-1][2])] = key
             elif ch == "R":
                 if not live.get(key):
                     found.append((idx, "C04:removed-without-added", "browser %d delivered Removed(%s, %s) for an instance that is not currently added" % (bid, type_, name)))
+                    _DETAIL[(idx, "C04:removed-without-added", found[-1][2])] = key
                 live[key] = False
             # "callbacks are delivered only after the records of the triggering datagram are in the cache": demanded of Added callbacks
             # (the sentence's own example is the lookup from inside add_service); what Removed / Updated callbacks see is compared with
@@ -162,6 +168,7 @@ def oracle(probes, ops, obs, res):
             if ch == "A" and snap is not None and snap != o["S"] and not (
                     made and _expired_only(snap, o["S"], (CC.op_time(op) or 0) + (o.get("ticks") or 0))):
                 found.append((idx, "C04:callback-before-cache-update", "the cache seen inside the %s callback for %s differs from the cache after the op" % (ch, name)))
+                _DETAIL[(idx, "C04:callback-before-cache-update", found[-1][2])] = key
         if o["P"] is not None:
             for bid, types in active.items():
                 for t in types:
@@ -471,7 +478,9 @@ def add_plans(rng, ops):
 # S1 / S6 (findings; notes/agents/C06.md "Residual findings"): a hand-written RecordUpdateListener that registers a listener WITH a question
 # from inside its UPDATE callback (async_add_listener purges and runs nested rounds in the middle of the datagram's first round).  Browsers
 # iterated after it are told Removed twice for a withdrawn record that had run out unpurged (S1); browsers iterated before it have their
-# pending Added fired by the nested completion before the datagram's records are cached (S6).  Outside the model (stage O only).
+# pending Added fired by the nested completion before the datagram's records are cached (S6).  Stage O only (the driver's composite does
+# not interleave browsers with recording listeners); Lean counterpart: Props/C04Reentrant.lean (`updateRoundReentrant`, `S1_alternates_statement`
+# / `S6_added_after_cache_statement` with `_refuted` at these witnesses, input classes `S1Class` / `S6Class` = `update_round_classes` below).
 S1_SIG = "C04:update-round-reentrant-listener:removed-twice"
 S6_SIG = "C04:update-round-reentrant-listener:added-before-cached"
 
@@ -491,15 +500,69 @@ def update_round_histories():
         yield ops
 
 
+def update_round_classes(ops):
+    """the input classes of S1 / S6 (Lean: `S1Class`, `S6Class` in Props/C04Reentrant.lean), computed from the history alone.
+    Returns {op index: (s1 keys, s6 keys)}, keys = (browser, type, lower-cased instance).  In a datagram op a registered recording listener
+    L has a scripted phase-1 (update round, depth 0) `add with a question` reaction with clock reading t = now + dt, and
+      S1: the datagram withdraws (zero-TTL copy) a cached pointer record of a type browser B browses whose TTL had fully elapsed at t
+          (run out, unpurged), and L is iterated BEFORE B (set order: recording listeners hash to their id, browsers to 7 + id);
+      S6: the datagram announces (non-zero TTL) a pointer record of a type B browses that is not cached, some cached record had run out at
+          t (so the nested purge has rounds to run), and L is iterated AFTER B."""
+    ref = CC.Ref()
+    registered = set()
+    browsers = {}
+    out = {}
+    for idx, op in enumerate(ops):
+        k = op[0]
+        if k == "LA":
+            registered.add(op[1])
+        elif k == "LR":
+            registered.discard(op[1])
+        elif k == "BA":
+            ref.purge(op[2])
+            browsers[op[1]] = list(op[3])
+        elif k == "BR":
+            browsers.pop(op[1], None)
+        elif k == "X":
+            ref.purge(op[1])
+        elif k in ("D", "W"):
+            now = op[1]
+            s1, s6 = set(), set()
+            for r in op[3]:
+                if not (r[0] == 1 and r[2] == 2 and r[1] in registered):
+                    continue
+                lid, t = r[1], now + r[4]
+                run_out = {i for i, e in ref.d.items() if e[0] + 1000 * e[1] <= t}
+                for bid, types in browsers.items():
+                    first = lid < 7 + bid
+                    for rec in op[2]:
+                        if rec[0] != "p" or rec[2] != 12 or rec[1] not in types:
+                            continue
+                        i = CC.ident_of(rec)
+                        key = (bid, rec[1], rec[6].lower())
+                        if first and rec[5] == 0 and i in run_out:
+                            s1.add(key)
+                        if not first and rec[5] != 0 and i not in ref.d and run_out:
+                            s6.add(key)
+            if s1 or s6:
+                out[idx] = (s1, s6)
+            ref.datagram(now, op[2])
+    return out
+
+
 def oracle_update_round(probes, ops, obs, res):
+    """the plain C04 predicates; a violation is reported under a finding's signature only if it is the violation that finding predicts
+    for this input: same op, same browser, same (type, instance), and the history is in the finding's input class.  Anything else keeps
+    its plain signature (e.g. an Added for a *purged* record fired by a nested round, mutant mY)"""
     out = []
+    classes = update_round_classes(ops)
     for idx, sig, what in oracle(probes, ops, obs, res):
-        o = obs[idx] if idx < len(obs) else {}
-        reentrant = any(x[2] == 2 and x[4] == 1 for x in (o.get("executed") or []))
-        if reentrant and sig == "C04:removed-without-added":
+        key = _DETAIL.get((idx, sig, what))
+        s1, s6 = classes.get(idx, (set(), set()))
+        if sig == "C04:removed-without-added" and key in s1:
             out.append((idx, S1_SIG, "a listener registered another listener with a question from inside its update callback while the record the datagram "
                         "withdraws had run out unpurged: the nested purge round and the datagram's own completion round both report it; " + what))
-        elif reentrant and sig in ("C04:added-before-cached", "C04:callback-before-cache-update"):
+        elif sig in ("C04:added-before-cached", "C04:callback-before-cache-update") and key in s6:
             out.append((idx, S6_SIG, "a listener registered another listener with a question from inside its update callback: the nested completion round "
                         "fired a browser's pending callback before the datagram's records were cached; " + what))
         else:
